@@ -57,12 +57,12 @@ def strategy_case(draw):
     case = {"routine": routine, "dt": dt, "lib_seed": draw(gen.SEED), "seed": draw(gen.SEED),
             "eps": 10 ** draw(st.floats(-12, -1)),
             "spectrum": draw(st.sampled_from(["randn", "decay", "decay"])),
-            "scale_exp": draw(st.sampled_from([0, 0, 0, -6, -3, 3, 6, -20, 20]))}
+            "scale_exp": draw(st.sampled_from([0, 0, 0, -6, -3, 3, 6, -20, 20, -170, 170, -250, 250]))}
     if dt in ("f32", "c64"):
         # single precision: eps stays above the working precision (below it no multiple of eps can be promised) and the
         # operand scaling inside the float32 range
         case["eps"] = 10 ** draw(st.floats(-5, -1))
-        case["scale_exp"] = draw(st.sampled_from([0, 0, -3, 3, -6, 6]))
+        case["scale_exp"] = draw(st.sampled_from([0, 0, -3, 3, -6, 6, -25, 25]))
     if case["spectrum"] == "decay":
         case["rho"] = draw(st.sampled_from([0.5, 0.1, 0.01]))
         case["r"] = draw(st.integers(2, 4))
